@@ -21,7 +21,8 @@ WATCHDOG = {'quick': 600, 'thorough': 3600}
 MIN = {'quick': {'distinct': 300,
                  'hooks': {'grammar.extract': 3000,
                            'grammaranalysis.fan_out': 3000},
-                 'strata': {'rule count>1': 300, 'fan-out>=3': 100,
+                 'strata': {'re-extraction after in-place transformation': 300,
+                            'rule count>1': 300, 'fan-out>=3': 100,
                             'repeated sibling labels': 300}},
        'thorough': {'distinct': 20000,
                     'hooks': {'grammar.extract': 150000}}}
@@ -148,6 +149,8 @@ def make_bank(rng, quick):
                              p_unary=rng.choice([0, 0.15, 0.3]),
                              moves=rng.choice([0, 0, 1, 2, 3, 6]),
                              sid=j + 1))
+        if rng.random() < 0.4:
+            gen.uproot(rng, bank[-1], 0.3)
     return bank
 
 
@@ -163,6 +166,20 @@ def run_bank(ctx, bank, rng):
                 R.grammar.extract(live, grammar, lexicon)
         except Exception:
             pass
+        if rng.random() < 0.25:
+            # the same tree objects, changed in place, extracted again: what
+            # was computed for the old shape must not survive
+            try:
+                with common.captured():
+                    t2 = R.transform.root_attach(live)
+                    if rng.random() < 0.5:
+                        t2 = R.transform.negra_mark_heads(t2)
+                        t2 = R.transform.boyd_split(t2)
+                        t2 = R.transform.raising(t2)
+                    R.grammar.extract(t2, {}, {})
+                ctx.stratum('re-extraction after in-place transformation')
+            except Exception:
+                pass
     # treebank-level consequences
     nodes, roots, lex, tags = lcfrs.treebank_rule_stats(bank)
     per_lhs = Counter()
